@@ -117,7 +117,7 @@ func loopHeader(p *pkg, fn string) string {
 
 func genBip32Path() {
 	p := repoPkg("pkg/bip32path")
-	g := newGen("Bip32Path")
+	g := newGenHdr("Bip32Path", loopHeaderText+flowHeaderText+recvHeaderText+callHeaderText+strsHeaderText, "Iota.Model.GoBits")
 	g.def("hardened", "Int", p.intConst("hardened"))
 	// regexp literal
 	args := p.callArgsIn(p.varExpr("keyReg"), "regexp", "MustCompile")
@@ -137,7 +137,19 @@ func genBip32Path() {
 	sp := p.callArgs("ParsePath", "strings", "Split")
 	ss, _ := strconv.Unquote(sp[1].(*ast.BasicLit).Value)
 	g.def("splitSep", "List Nat", leanBytes(ss))
-	g.src(p, "ParsePath", "Path.String", "Path.MarshalText", "Path.UnmarshalText", "parseUint31")
+	// path.go translated as code (callees first; to be tied to the model in Iota/Tie); not pinned by text.  What the
+	// translation does not define is a PARAMETER of the generated functions (strsHeaderText: nothing is assumed about them
+	// here, the tie states what it assumes): strconv_ParseUint, the library function strconv.ParseUint with its error as an
+	// opaque name, and keyReg_FindStringSubmatch, the method FindStringSubmatch of the package variable keyReg (whose regular
+	// expression is recorded above as keyRegexp and in rest_bip32path).  strings.TrimPrefix, strings.Split with the
+	// one-byte separator and fmt.Sprintf("/%d", …) are defined in Iota/Model/GoBits.lean.  MarshalText and UnmarshalText
+	// are not translated: they stay pinned by their text.
+	codeFns := []string{"parseUint31", "ParsePath", "Path.String"}
+	g.raw(translateLoopFuncsNS(p, "code", codeFns...))
+	for _, n := range codeFns {
+		pinnedFns[p.method(n)] = true
+	}
+	g.src(p, "Path.MarshalText", "Path.UnmarshalText")
 	g.rest(p, "bip32path")
 	g.write()
 }
